@@ -44,6 +44,9 @@ class Plan(object):
         # the usual `if scenario.status == Status.failed: take_screenshot()` idiom; reading must not
         # change any outcome
         self.peek = bool(program.get("peek"))
+        # hooks wrapped with the documented behave.log_capture.capture decorator:
+        # None | "plain" (@capture) | "error" (@capture(level=logging.ERROR))
+        self.capture_hooks = program.get("capture_hooks")
 
 
 _EXC = {"Exception": RuntimeError, "AssertionError": AssertionError, "KeyboardInterrupt": KeyboardInterrupt}
@@ -97,6 +100,11 @@ def make_hooks(plan):
             elif exc:
                 raise _EXC[exc]("hook fault #%d in %s" % (k, name))
         hook.__name__ = name
+        if plan.capture_hooks and name not in ("before_all", "after_all"):
+            from behave.log_capture import capture
+            wrapped = capture(hook) if plan.capture_hooks == "plain" else capture(level=logging.ERROR)(hook)
+            wrapped.__name__ = name
+            return wrapped
         return hook
     return dict((name, make(name)) for name in HOOK_NAMES)
 
